@@ -639,21 +639,26 @@ Section MuxImport.
     else Ok (st1, muxed, stds ++ [((s, []), ds)], last).
 
   Lemma loop1 : forall Xl st mu sd la,
-    (forall p, In p Xl -> In (snd p) sigs /\ (fst p = mid <-> snd p = mx)) ->
+    (forall p, In p Xl -> In (snd p) sigs /\ (fst p = mid <-> snd p = mx)) -> NoDup (map snd Xl) ->
     exists st',
       fold_left f1 (map (fun p => (fst p, img (snd p))) Xl) (Ok (st, mu, sd, la))
       = Ok (st', mu ++ map ent (filter childp Xl), sd ++ map ent (filter plainp Xl), last_of la Xl) /\
-      is_enums st' = is_enums st /\ is_enum_refs st' = is_enum_refs st.
+      is_enums st' = is_enums st /\ is_enum_refs st' = is_enum_refs st /\
+      (forall p, In p Xl -> snd p <> mx -> lookup key_eqb (msgid, clear (s_name (snd p))) (is_sigmap st') = Some (mpos, fst p)) /\
+      (forall k, (forall p, In p Xl -> k <> (msgid, clear (s_name (snd p)))) -> lookup key_eqb k (is_sigmap st') = lookup key_eqb k (is_sigmap st)).
   Proof.
-    induction Xl as [|[id s] r IH]; intros st mu sd la HX; cbn [map fold_left filter last_of].
-    - exists st. rewrite !app_nil_r. auto.
+    induction Xl as [|[id s] r IH]; intros st mu sd la HX Hnd; cbn [map fold_left filter last_of].
+    - exists st. rewrite !app_nil_r. split; [reflexivity|]. split; [reflexivity|]. split; [reflexivity|]. split; [intros p []|auto].
     - destruct (HX (id, s) (or_introl eq_refl)) as [Hs Hmid]. cbn [fst snd] in Hs, Hmid.
       assert (HXr : forall p, In p r -> In (snd p) sigs /\ (fst p = mid <-> snd p = mx)) by (intros p Hp; apply HX; right; assumption).
+      cbn [map] in Hnd. inversion Hnd as [|? ? Hni Hndr]; subst.
       unfold f1 at 2. cbn [bind fst snd].
       destruct (id =? mid) eqn:Em.
       + apply Z.eqb_eq in Em. assert (s = mx) by (apply Hmid; assumption). subst s.
         destruct mx_top as [_ Ht]. unfold childp, plainp. cbn [snd]. rewrite Ht, Hmxm. cbn [negb andb].
-        destruct (IH st mu sd la HXr) as [st' [E1 E2]]. exists st'. split; [exact E1|exact E2].
+        destruct (IH st mu sd la HXr Hndr) as [st' [E1 [E2 [E3 [E4 E5]]]]]. exists st'. split; [exact E1|]. split; [exact E2|]. split; [exact E3|]. split.
+        * intros p [<-|Hp] Hne; [cbn [snd] in Hne; contradiction|apply E4; assumption].
+        * intros k Hk. apply E5. intros p Hp. apply Hk. right. assumption.
       + assert (Hne : s <> mx) by (intros ->; apply Z.eqb_neq in Em; apply Em; apply Hmid; reflexivity).
         destruct (other_sig s Hs Hne) as [Hnm [Hk Hc]]. destruct (img_fields s Hs Hne) as [F1 [F2 [F3 F4]]].
         destruct (Henv s Hs Hnm) as [He1 He2].
@@ -663,12 +668,21 @@ Section MuxImport.
             - destruct Htop as [_ [_ [_ [_ [_ [_ Hsz]]]]]]. rewrite Hk in Hsz. lia.
             - destruct Hch as [_ [_ [_ [_ [_ [_ [_ [Hsz _]]]]]]]]. lia. }
         cbn [bind]. rewrite F3. unfold childp, plainp. cbn [snd]. rewrite Hnm.
+        assert (Hfresh : forall p, In p r -> (msgid, clear (s_name s)) <> (msgid, clear (s_name (snd p)))).
+        { intros p Hp Heq. inversion Heq as [Hq]. destruct Hms as [_ [Hnames _]].
+          assert (s = snd p) by (apply (NoDup_map_inj (fun x => clear (s_name x)) sigs); try assumption; apply HXr; assumption).
+          apply Hni. rewrite H. apply in_map. assumption. }
+        set (st2 := set_sigmap st (((msgid, ds_name (img s)), (mpos, id)) :: is_sigmap st)).
+        assert (Hst2 : is_sigmap st2 = ((msgid, clear (s_name s)), (mpos, id)) :: is_sigmap st) by (unfold st2; cbn [is_sigmap set_sigmap]; rewrite F1; reflexivity).
         destruct (is_topb s) eqn:Et; cbn [negb andb map app].
-        * destruct (IH (set_sigmap st (((msgid, ds_name (img s)), (mpos, id)) :: is_sigmap st)) mu (sd ++ [ent (id, s)]) la HXr) as [st' [E1 [E2 E3]]].
-          exists st'. split; [|split; assumption]. rewrite <- app_assoc in E1. exact E1.
-        * destruct (IH (set_sigmap st (((msgid, ds_name (img s)), (mpos, id)) :: is_sigmap st)) (mu ++ [ent (id, s)]) sd
-                       (if get_start_bit (img s) >? la then get_start_bit (img s) else la) HXr) as [st' [E1 [E2 E3]]].
-          exists st'. split; [|split; assumption]. rewrite <- app_assoc in E1. exact E1.
+        * destruct (IH st2 mu (sd ++ [ent (id, s)]) la HXr Hndr) as [st' [E1 [E2 [E3 [E4 E5]]]]].
+          exists st'. split; [rewrite <- app_assoc in E1; exact E1|]. split; [exact E2|]. split; [exact E3|]. split.
+          -- intros p [<-|Hp] Hnx; cbn [fst snd]; [rewrite (E5 _ Hfresh), Hst2; apply lookup_key_head|apply E4; assumption].
+          -- intros k Hk'. rewrite E5 by (intros p Hp; apply Hk'; right; assumption). rewrite Hst2. apply lookup_key_skip. apply (Hk' (id, s)). left. reflexivity.
+        * destruct (IH st2 (mu ++ [ent (id, s)]) sd (if get_start_bit (img s) >? la then get_start_bit (img s) else la) HXr Hndr) as [st' [E1 [E2 [E3 [E4 E5]]]]].
+          exists st'. split; [rewrite <- app_assoc in E1; exact E1|]. split; [exact E2|]. split; [exact E3|]. split.
+          -- intros p [<-|Hp] Hnx; cbn [fst snd]; [rewrite (E5 _ Hfresh), Hst2; apply lookup_key_head|apply E4; assumption].
+          -- intros k Hk'. rewrite E5 by (intros p Hp; apply Hk'; right; assumption). rewrite Hst2. apply lookup_key_skip. apply (Hk' (id, s)). left. reflexivity.
   Qed.
 
   (* ---- geometry ---- *)
@@ -924,7 +938,9 @@ Section MuxImport.
       import_message_signals env st mpos (mkdmessage msgid dname (u32 (m_size m)) dtx D)
       = Ok (st', map timg (filter plainp X) ++ [mx_img (gsize_of (is_enums st) X)] ++ map kimg (filter childp X)) /\
       is_enums st' = is_enums st /\ is_enum_refs st' = is_enum_refs st /\
-      1 <= gsize_of (is_enums st) X <= s_gsize mx.
+      1 <= gsize_of (is_enums st) X <= s_gsize mx /\
+      (forall p, In p X -> lookup key_eqb (msgid, clear (s_name (snd p))) (is_sigmap st') = Some (mpos, fst p)) /\
+      (forall k, (forall s, In s sigs -> k <> (msgid, clear (s_name s))) -> lookup key_eqb k (is_sigmap st') = lookup key_eqb k (is_sigmap st)).
   Proof.
     intros st S' dname dtx D Hperm Hmid Hsort X.
     pose proof Hms as [Hids [Hnames _]].
@@ -973,7 +989,7 @@ Section MuxImport.
     destruct Himx as [M1 [M2 [M3 M4]]].
     unfold import_message_signals. cbv zeta. cbn [dm_signals dm_id dm_size]. rewrite Hsort, index_from_map_img. fold X. rewrite Hfil.
     rewrite M1.
-    destruct (loop1 X st [] [] (-1) HX) as [st1 [E1 [E2 E3]]]. cbn [app] in E1.
+    destruct (loop1 X st [] [] (-1) HX (index_from_snd_nodup S' 0 HndS)) as [st1 [E1 [E2 [E3 [E4s E5s]]]]]. cbn [app] in E1.
     change (fold_left _ (map (fun p => (fst p, img (snd p))) X) (Ok (st, [], [], -1))) with
       (fold_left f1 (map (fun p => (fst p, img (snd p))) X) (Ok (st, [], [], -1))).
     rewrite E1. cbn [bind]. rewrite M4.
@@ -1040,9 +1056,20 @@ Section MuxImport.
     { unfold sel_width. cbn [s_gcount mx_img]. apply ProofsIds.calc_size_sel. lia. }
     rewrite msg_insert_ok_g.
     - cbn [bind]. exists (set_sigmap st1 (((msgid, clear (s_name mx)), (mpos, mid)) :: is_sigmap st1)).
-      split; [|split; [exact E2|split; [exact E3|]]].
+      split; [|split; [exact E2|split; [exact E3|split; [|split]]]].
       + f_equal. f_equal. f_equal. f_equal. unfold gsize_of. rewrite <- E2. reflexivity.
       + unfold gsize_of. rewrite <- E2. fold eb. exact Hgsz.
+      + intros p Hp. cbn [is_sigmap set_sigmap]. destruct (HX p Hp) as [Hps Hpm].
+        destruct p as [i x]. cbn [fst snd] in *.
+        assert (Hdec : x = mx \/ x <> mx).
+        { destruct (Z.eq_dec i mid) as [E|E]; [left; apply Hpm; exact E|right; intros Ex; apply E; apply Hpm; exact Ex]. }
+        destruct Hdec as [->|Hxne].
+        * assert (i = mid) by (apply Hpm; reflexivity). subst i. apply lookup_key_head.
+        * rewrite lookup_key_skip.
+          -- apply (E4s (i, x) Hp Hxne).
+          -- intros Heq. inversion Heq as [Hq]. apply Hxne. apply (NoDup_map_inj (fun s => clear (s_name s)) sigs); assumption.
+      + intros k Hk. cbn [is_sigmap set_sigmap]. rewrite lookup_key_skip by (apply Hk; exact Hmx).
+        apply E5s. intros p Hp. apply Hk. apply HX. assumption.
     - cbn [s_name place mx_img]. rewrite map_map. intros Hin. apply in_map_iff in Hin. destruct Hin as [q [Hq Hqin]].
       destruct (HTP q Hqin) as [Hqs [Hqt Hqm]]. destruct (plain_facts _ Hqs Hqt Hqm) as [_ [_ [_ Hqne]]].
       cbn [s_name timg place std_imp] in Hq. rewrite (proj1 (img_fields (snd q) Hqs Hqne)) in Hq.
@@ -1178,7 +1205,9 @@ Lemma import_message_mux : forall es env names nodes st done m mx,
     = Ok (st', done ++ [mkmessage (m_canid m) (clear (m_name m)) (m_size m) (m_order m) 0 0 0 0
                                   (clear (m_sender m)) (recs_in m) (m_desc m) [] (mux_result es env m mx mid gs S')]) /\
     Permutation (m_signals m) S' /\ In (mid, mx) (index_from 0 S') /\ 1 <= gs <= s_gsize mx /\
-    is_enums st' = is_enums st /\ is_enum_refs st' = is_enum_refs st.
+    is_enums st' = is_enums st /\ is_enum_refs st' = is_enum_refs st /\
+    (forall p, In p (index_from 0 S') -> lookup key_eqb (u32 (m_canid m), clear (s_name (snd p))) (is_sigmap st') = Some (length done, fst p)) /\
+    (forall k, (forall s, In s (m_signals m) -> k <> (u32 (m_canid m), clear (s_name s))) -> lookup key_eqb k (is_sigmap st') = lookup key_eqb k (is_sigmap st)).
 Proof.
   intros es env names nodes st done m mx Hmm Hmx Hmxm Henv Henvx Hext Hmd Hnodes Hnd Hcan Hpair.
   pose proof Hmm as [Ha [Hc [Hdl [Hsd [Hst [Hid [Hsz [Hms [Hlay [Hsn [Hrc [Hrn Hre]]]]]]]]]]]].
@@ -1195,9 +1224,9 @@ Proof.
   assert (HmxS : In mx S') by (eapply Permutation_in; eauto).
   destruct (in_index_from S' 0 mx HmxS) as [mid Hmid].
   destruct (ims_mux es env (length done) m mx names Hmm Hmx Hmxm Henv Henvx Hext mid st S' (clear (m_name m)) (clear (m_sender m)) D HpS Hmid Hsort)
-    as [st' [Hsig [He1 [He2 Hgs]]]].
+    as [st' [Hsig [He1 [He2 [Hgs [Hsm1 Hsm2]]]]]].
   exists st', S', mid, (gsize_of es env m mx (is_enums st) (index_from 0 S')).
-  split; [|split; [exact HpS|split; [exact Hmid|split; [exact Hgs|split; assumption]]]].
+  split; [|exact (conj HpS (conj Hmid (conj Hgs (conj He1 (conj He2 (conj Hsm1 Hsm2))))))].
   unfold import_message. cbv zeta. unfold dmsg_m. cbn [dm_signals dm_id dm_size dm_tx dm_name]. fold D.
   unfold desc_of in Hmd. rewrite Hmd. rewrite Hsort.
   destruct S' as [|s0 sr] eqn:ES; [destruct HmxS|]. rewrite <- ES in *.
@@ -1498,6 +1527,16 @@ Proof.
   intros es env st m m' [[_ [sg [-> _]]]|[mx [mid [gs [S' [_ [_ [-> _]]]]]]]]; cbn; auto.
 Qed.
 
+(* where the importer's signal map sends the signals of a message *)
+Definition sm_rel (sm : list (key * (nat * Z))) (p : nat) (m m' : message) : Prop :=
+  forall s, In s (m_signals m) -> exists s', In s' (m_signals m') /\ s_name s' = clear (s_name s) /\
+    lookup key_eqb (u32 (m_canid m), clear (s_name s)) sm = Some (p, s_id s').
+
+Lemma Rsig_name_id : forall es st id s s', Rsig es st id s s' -> s_name s' = clear (s_name s) /\ s_id s' = id.
+Proof.
+  intros es st id s s' H. unfold Rsig in H. destruct (s_kind s); [subst; cbn; auto| |]; destruct H as [ei [-> _]]; cbn; auto.
+Qed.
+
 Lemma import_message_m : forall es env st0 names nodes st done m,
   mmessage es names m -> env_msg es env st0 m -> ie_ext_muxes env = [] ->
   ProofsEnum.refs_valid st0 -> Inv st -> ProofsEnum.st_le st0 st ->
@@ -1506,7 +1545,9 @@ Lemma import_message_m : forall es env st0 names nodes st done m,
   ~ In (m_canid m) (map m_canid done) ->
   ~ In (clear (m_sender m), clear (m_name m)) (map (fun x => (m_sender x, m_name x)) done) ->
   exists st' m', import_message env (st, done) nodes (dmsg_m es m) = Ok (st', done ++ [m']) /\
-    Inv st' /\ ProofsEnum.st_le st st' /\ Rmsg_m es env st' m m'.
+    Inv st' /\ ProofsEnum.st_le st st' /\ Rmsg_m es env st' m m' /\
+    sm_rel (is_sigmap st') (length done) m m' /\
+    (forall k, (forall s, In s (m_signals m) -> k <> (u32 (m_canid m), clear (s_name s))) -> lookup key_eqb k (is_sigmap st') = lookup key_eqb k (is_sigmap st)).
 Proof.
   intros es env st0 names nodes st done m Hmm Henv Hext Hrv0 HI Hle Hnodes Hnd Hcan Hpair.
   destruct (existsb is_muxb (m_signals m)) eqn:Ex.
@@ -1521,20 +1562,42 @@ Proof.
     assert (Henvx : desc_of key_eqb (u32 (m_canid m), clear (s_name mx)) (ie_sig_desc env) = s_desc mx)
       by (destruct (Hsig mx Hmx) as [[Hd _] _]; exact Hd).
     destruct (import_message_mux es env names nodes st done m mx Hmm Hmx Hmxm Henv1 Henvx Hext Hmd Hnodes Hnd Hcan Hpair)
-      as [st' [S' [mid [gs [E [Hp [Hmid [Hgs [He1 He2]]]]]]]]].
+      as [st' [S' [mid [gs [E [Hp [Hmid [Hgs [He1 [He2 [Hsm1 Hsm2]]]]]]]]]]].
     exists st'. eexists. split; [exact E|]. destruct HI as [I1 [I2 I3]].
-    split; [|split].
+    split; [|split; [|split; [|split]]].
     + unfold Inv, ProofsEnum.refs_valid. rewrite He1, He2. auto.
     + apply ProofsLayout.st_le_same; assumption.
     + right. exists mx, mid, gs, S'. repeat split; try assumption; lia.
+    + intros s Hs. assert (HsS : In s S') by (eapply Permutation_in; eauto).
+      destruct (in_index_from S' 0 s HsS) as [i Hi]. specialize (Hsm1 (i, s) Hi). cbn [fst snd] in Hsm1.
+      cbn [m_signals].
+      exists (Fimg es env m mx mid gs (i, s)). split.
+      * fold (mux_result es env m mx mid gs S'). rewrite (R_map es env names m mx mid gs S' Hmm Hmx Hmxm Hp).
+        apply in_map. eapply Permutation_in; [apply (XY_perm es names m mx mid S' Hmm Hmx Hmxm Hp Hmid)|exact Hi].
+      * rewrite (Fimg_id es env m mx mid gs (i, s)). cbn [fst]. split; [|exact Hsm1].
+        unfold Fimg. cbn [snd fst]. destruct (is_muxb s) eqn:Em.
+        -- assert (s = mx) by (destruct Hmm as [_ [_ [_ [_ [_ [_ [_ [[_ [_ [_ [Hu _]]]] _]]]]]]]]; apply Hu; assumption). subst s. reflexivity.
+        -- assert (Hne : s <> mx) by (intros ->; congruence).
+           destruct (is_topb s); cbn [s_name timg kimg place std_imp]; apply (img_fields es env m mx names Hmm Hmx Hmxm Henv1 s Hs Hne).
+    + exact Hsm2.
   - (* none *)
     assert (Hnm : forall s, In s (m_signals m) -> is_muxb s = false).
     { intros s Hs. destruct (is_muxb s) eqn:E; [|reflexivity]. assert (existsb is_muxb (m_signals m) = true) by (apply existsb_exists; eauto). congruence. }
     destruct (mmessage_plain es names m Hmm Hnm) as [Hem Hdm]. rewrite Hdm.
     destruct (import_message_e es env st0 names nodes st done m Hem Henv Hrv0 HI Hle Hnodes Hnd Hcan Hpair)
-      as [st' [m' [E [HI' [Hle' [HR _]]]]]].
-    exists st', m'. split; [exact E|]. split; [exact HI'|]. split; [exact Hle'|]. left. split; assumption.
+      as [st' [m' [E [HI' [Hle' [HR [HL1 HL2]]]]]]].
+    exists st', m'. split; [exact E|]. split; [exact HI'|]. split; [exact Hle'|]. split; [left; split; assumption|]. split; [|exact HL2].
+    intros s Hs. destruct (in_index_from (m_signals m) 0 s Hs) as [j Hj]. destruct HR as [sg [-> HF]]. cbn [m_signals].
+    destruct (ProofsMux.Forall2_in_l _ _ _ _ HF Hj) as [s' [Hs' HRs]]. cbn [fst snd] in HRs.
+    destruct (Rsig_name_id _ _ _ _ _ HRs) as [N1 N2]. exists s'. split; [assumption|]. split; [assumption|]. rewrite N2. apply (HL1 j s Hj).
 Qed.
+
+Fixpoint SMs (sm : list (key * (nat * Z))) (p : nat) (l l' : list message) : Prop :=
+  match l, l' with
+  | [], [] => True
+  | m :: r, m' :: r' => sm_rel sm p m m' /\ SMs sm (S p) r r'
+  | _, _ => False
+  end.
 
 Lemma import_messages_m : forall es env st0 names nodes l st done,
   Forall (mmessage es names) l -> (forall m, In m l -> env_msg es env st0 m) -> ie_ext_muxes env = [] ->
@@ -1545,24 +1608,38 @@ Lemma import_messages_m : forall es env st0 names nodes l st done,
   NoDup (map (fun x => (m_sender x, m_name x)) done ++ map (fun m => (clear (m_sender m), clear (m_name m))) l) ->
   exists st' msgs',
     fold_left (fun acc dm => do a <- acc; import_message env a nodes dm) (map (dmsg_m es) l) (Ok (st, done))
-    = Ok (st', done ++ msgs') /\ Inv st' /\ ProofsEnum.st_le st st' /\ Forall2 (Rmsg_m es env st') l msgs'.
+    = Ok (st', done ++ msgs') /\ Inv st' /\ ProofsEnum.st_le st st' /\ Forall2 (Rmsg_m es env st') l msgs' /\
+    SMs (is_sigmap st') (length done) l msgs' /\
+    (forall k, (forall m s, In m l -> In s (m_signals m) -> k <> (u32 (m_canid m), clear (s_name s))) ->
+       lookup key_eqb k (is_sigmap st') = lookup key_eqb k (is_sigmap st)).
 Proof.
   intros es env st0 names nodes l. induction l as [|m r IH]; intros st done Hp Henv Hext Hrv0 HI Hle Hn Hd Hc Hq.
-  - cbn. exists st, []. rewrite app_nil_r. split; [reflexivity|]. split; [assumption|]. split; [apply ProofsEnum.st_le_refl|constructor].
+  - cbn. exists st, []. rewrite app_nil_r. split; [reflexivity|]. split; [assumption|]. split; [apply ProofsEnum.st_le_refl|]. split; [constructor|]. split; [exact I|auto].
   - inversion Hp as [|? ? Hpm Hpr]; subst. cbn [map fold_left bind].
     destruct (import_message_m es env st0 names nodes st done m Hpm (Henv m (or_introl eq_refl)) Hext Hrv0 HI Hle Hn Hd)
-      as [st1 [m' [E1 [HI1 [Hle1 HR]]]]].
+      as [st1 [m' [E1 [HI1 [Hle1 [HR [HS1 HS2]]]]]]].
     + cbn [map] in Hc. apply NoDup_remove_2 in Hc. intros Hin. apply Hc. apply in_or_app. left. assumption.
     + cbn [map] in Hq. apply NoDup_remove_2 in Hq. intros Hin. apply Hq. apply in_or_app. left. assumption.
     + rewrite E1. destruct (Rmsg_m_head _ _ _ _ _ HR) as [K1 [K2 K3]].
-      destruct (IH st1 (done ++ [m'])) as [st' [msgs' [F1 [F2 [F3 F4]]]]]; try assumption.
+      assert (Hkeys : forall x s s', In x r -> (u32 (m_canid m), clear (s_name s)) <> (u32 (m_canid x), clear (s_name s'))).
+      { intros x s s' Hx Heq. inversion Heq as [[Hq1 Hq2]].
+        rewrite Forall_forall in Hpr. destruct Hpm as [_ [_ [_ [_ [_ [Hid _]]]]]]. destruct (Hpr x Hx) as [_ [_ [_ [_ [_ [Hidx _]]]]]].
+        rewrite !u32_id in Hq1 by assumption.
+        cbn [map] in Hc. apply NoDup_app_r in Hc. inversion Hc as [|? ? Hni _]; subst. apply Hni. rewrite Hq1. apply in_map. assumption. }
+      destruct (IH st1 (done ++ [m'])) as [st' [msgs' [F1 [F2 [F3 [F4 [F5 F6]]]]]]]; try assumption.
       * intros x Hx. apply Henv. right. assumption.
       * eapply ProofsEnum.st_le_trans; [exact Hrv0|exact Hle|exact Hle1].
       * rewrite map_app. cbn [map]. rewrite K1, <- app_assoc. exact Hc.
       * rewrite map_app. cbn [map]. rewrite K2, K3, <- app_assoc. exact Hq.
       * exists st', (m' :: msgs'). split; [rewrite F1, <- app_assoc; reflexivity|]. split; [assumption|].
         split; [eapply ProofsEnum.st_le_trans; [exact (proj1 HI)|exact Hle1|exact F3]|].
-        constructor; [eapply Rmsg_m_mono; eauto|assumption].
+        split; [constructor; [eapply Rmsg_m_mono; eauto|assumption]|]. split.
+        -- cbn [SMs]. split.
+           ++ intros s Hs. destruct (HS1 s Hs) as [s' [A1 [A2 A3]]]. exists s'. split; [assumption|]. split; [assumption|].
+              rewrite F6 by (intros y t Hy _; apply Hkeys; assumption). exact A3.
+           ++ rewrite app_length in F5. cbn [length] in F5. replace (length done + 1)%nat with (S (length done)) in F5 by lia. exact F5.
+        -- intros k Hk. rewrite F6 by (intros y t Hy Ht; apply Hk; [right; assumption|assumption]).
+           apply HS2. intros t Ht. apply Hk; [left; reflexivity|assumption].
 Qed.
 
 (* ---------------- projection of any message of the fragment ---------------- *)
@@ -1631,7 +1708,7 @@ Proof.
     - cbn [ie_msg_desc env]. apply (msg_desc_ok b Hkb). assumption.
     - intros s Hs. split; [|apply Hwf]. apply (env_sig_m b (length reg) reg (reg ++ new) se' md nd Hkb Hes V1 m s Hin Hs). }
   destruct (import_messages_m (b_enums b) env st0 (map n_name (b_nodes b)) nodes' (b_messages b) st0 [])
-    as [st' [msgs' [F1 [F2 [F3 F4]]]]]; try assumption; try reflexivity.
+    as [st' [msgs' [F1 [F2 [F3 [F4 _]]]]]]; try assumption; try reflexivity.
   - intros r [].
   - apply ProofsEnum.st_le_refl.
   - intros r Hr. rewrite Hnames'. apply in_or_app. left. apply in_map_iff in Hr. destruct Hr as [n [Hr Hin]]. subst r.
@@ -1660,6 +1737,64 @@ Proof.
     + f_equal. eapply (Forall2_map_eq (Rmsg_m (b_enums b) (mkienv nd md sd se' []) st')); [exact F4|].
       intros m m' Hin HR. rewrite Forall_forall in Hm. eapply (proj_message_m (map n_name (b_nodes b))); [apply Hm; assumption|intros; apply Hwf| |exact HR].
       intros s Hs. destruct (Henvm m Hin) as [_ Hsig]. destruct (Hsig s Hs) as [[Hd Hl] _]. split; [exact Hd|].
+      intros Hk. rewrite Hk in Hl. exact Hl.
+Qed.
+
+(* ---------------- the structural part of the import for any document that carries the exported structure
+   of an mbus (used by RoundTripAll with non-empty attribute sections) ---------------- *)
+Lemma import_struct_m : forall b L d, mbus b ->
+  d_filename d = b_name b -> d_nodes d = map (fun n => clear (n_name n)) (b_nodes b) ->
+  d_valtables d = map (table_of (b_enums b)) L -> d_messages d = map (dmsg_m (b_enums b)) (b_messages b) ->
+  d_comments d = doc_cms b -> d_valencs d = bus_vencs b -> d_extmuxes d = [] ->
+  exists st' msgs' env,
+    import d = (do b1 <- import_attributes (is_sigmap st') d
+                           (mkbus (b_name b) (b_desc b) []
+                                  (mk_nodes 0 (b_nodes b) ++ [mknode dummy_node 1024 EmptyString []]) (is_enums st') msgs');
+                finish b1) /\
+    Forall2 (Rmsg_m (b_enums b) env st') (b_messages b) msgs' /\
+    SMs (is_sigmap st') 0 (b_messages b) msgs' /\
+    (forall m s, In m (b_messages b) -> In s (m_signals m) ->
+       desc_of key_eqb (u32 (m_canid m), clear (s_name s)) (ie_sig_desc env) = s_desc s /\
+       (s_kind s = KStandard -> lookup key_eqb (u32 (m_canid m), clear (s_name s)) (ie_sig_enums env) = None)).
+Proof.
+  intros b L d Hb D1 D2 D3 D4 D5 D6 D7. pose proof Hb as [Ha [Hn [Hnn [Hdm [Hlen [Hm [Hcan [Hpair [Hg Hes]]]]]]]]].
+  pose proof (mbus_keyed b Hb) as Hkb.
+  unfold import. rewrite D1, D2, D3, D4, D5, D6, D7.
+  rewrite import_comments_spec, (gdesc_doc b Hkb).
+  destruct (tables_ok (b_enums b) L [] Hes) as [reg [T1 T2]]. cbn [app] in T1. rewrite T1. cbn [bind].
+  destruct (valencs_ok (length reg) (bus_vencs b) reg []) as [new [se' [V1 V2]]].
+  { apply Forall_forall. intros ve Hin. apply in_bus_vencs in Hin. destruct Hin as [m [s [_ [_ [_ ->]]]]].
+    cbn [ve_values]. apply evals_ok. apply enum_wf_nth. assumption. }
+  rewrite V1. cbn [bind fst snd import_ext_muxes fold_left].
+  rewrite import_nodes_ok; [|assumption|assumption|assumption|intros n Hin; apply (node_desc_ok b Hkb); assumption].
+  cbn [bind].
+  set (nd := rev (npairs (doc_cms b))). set (md := rev (mpairs (doc_cms b))). set (sd := rev (spairs (doc_cms b))).
+  set (st0 := mkistate (reg ++ new) [] []).
+  set (nodes' := mk_nodes 0 (b_nodes b) ++ [mknode dummy_node 1024 EmptyString []]).
+  assert (Hnames' : map n_name nodes' = map (fun n => clear (n_name n)) (b_nodes b) ++ [dummy_node]).
+  { unfold nodes'. rewrite map_app, mk_nodes_names. reflexivity. }
+  assert (HI0 : Inv st0).
+  { assert (Hall : forall i, 0 <= i < Z.of_nat (length (reg ++ new)) -> fresh (nth_enum (reg ++ new) i)).
+    { intros i Hi. assert (HF : Forall fresh (reg ++ new)) by (apply Forall_app; split; assumption).
+      rewrite Forall_forall in HF. apply HF. unfold nth_enum. apply nth_In. lia. }
+    split; [intros r []|]. split; intros i Hi; cbn [is_enums st0] in *; [apply (Hall i Hi)|intros _; apply (Hall i Hi)]. }
+  assert (Hwf : forall x, enum_wf (e_of (b_enums b) x)) by (intros x; apply enum_wf_nth; assumption).
+  assert (Henvm : forall m, In m (b_messages b) -> env_msg (b_enums b) (mkienv nd md sd se' []) st0 m).
+  { intros m Hin. split.
+    - cbn [ie_msg_desc]. apply (msg_desc_ok b Hkb). assumption.
+    - intros s Hs. split; [|apply Hwf]. apply (env_sig_m b (length reg) reg (reg ++ new) se' md nd Hkb Hes V1 m s Hin Hs). }
+  destruct (import_messages_m (b_enums b) (mkienv nd md sd se' []) st0 (map n_name (b_nodes b)) nodes' (b_messages b) st0 [])
+    as [st' [msgs' [F1 [F2 [F3 [F4 [F5 F6]]]]]]]; try assumption; try reflexivity.
+  - intros r [].
+  - apply ProofsEnum.st_le_refl.
+  - intros r Hr. rewrite Hnames'. apply in_or_app. left. apply in_map_iff in Hr. destruct Hr as [n [Hr Hin]]. subst r.
+    apply in_map_iff. exists n. auto.
+  - intros r Hr Heq. apply Hdm. apply in_map_iff in Hr. destruct Hr as [n [Hr Hin]]. subst r.
+    rewrite <- Heq. apply in_map_iff. exists n. auto.
+  - cbn [app] in F1. exists st', msgs', (mkienv nd md sd se' []). split; [|split; [exact F4|split; [exact F5|]]].
+    + match goal with |- bind ?x ?k = _ => replace x with (@Ok (istate * list message) (st', msgs')) by (symmetry; exact F1) end.
+      cbn [bind]. reflexivity.
+    + intros m s Hin Hs. destruct (Henvm m Hin) as [_ Hsig]. destruct (Hsig s Hs) as [[Hd Hl] _]. split; [exact Hd|].
       intros Hk. rewrite Hk in Hl. exact Hl.
 Qed.
 
